@@ -54,6 +54,12 @@ def build(n, edges, order, mode, unknown, skip_nb):
         objs = list(range(n))
         g = DiGraph(make_hashable=None)
         key = lambda o: o  # noqa: E731
+    elif mode == "odd":
+        # hashable mode with nodes of every hashable kind: None, False/0-like values, the empty tuple and string
+        pool = [None, (), "", 0.5, frozenset(), ("a", 1), "node", -1]
+        objs = pool[:n] if n <= len(pool) else pool + list(range(100, 100 + n - len(pool)))
+        g = DiGraph(make_hashable=None)
+        key = lambda o: o  # noqa: E731
     elif mode == "nan":
         # hashable mode with nodes whose equality is not reflexive (float nan): sets and dicts find them by
         # identity, so the algorithm must too
@@ -65,7 +71,7 @@ def build(n, edges, order, mode, unknown, skip_nb):
         g = DiGraph()
         key = id
     g.add_nodes([objs[i] for i in order])
-    extra = n + 100 if mode == "int" else (float("nan") if mode == "nan" else (EqObj(-1) if mode == "eq" else Obj(-1)))
+    extra = n + 100 if mode in ("int", "odd") else (float("nan") if mode == "nan" else (EqObj(-1) if mode == "eq" else Obj(-1)))
     for a in order:
         nb = [objs[b] for (x, b) in sorted(edges) if x == a]
         if not nb and a in skip_nb:
@@ -130,7 +136,7 @@ def cases(ctx):
                 ctx.rng.shuffle(o)
                 orders.append(o)
             for order in orders[:1 if (n == 4 or ctx.quick() and n == 3) else 2]:
-                mode = ("int", "id", "eq", "nan")[(mask + n) % 4]
+                mode = ("int", "id", "eq", "nan", "odd")[(mask + n) % 5]
                 yield n, edges, order, mode, (mask % 5 == 0), frozenset(range(n)) if mask % 3 == 0 else frozenset()
     for _ in range(200 if ctx.quick() else 4000):
         n = ctx.rng.randint(2, 40)
@@ -138,7 +144,7 @@ def cases(ctx):
         edges = frozenset((a, b) for a in range(n) for b in range(n) if ctx.rng.random() < dens)
         order = list(range(n))
         ctx.rng.shuffle(order)
-        yield n, edges, order, ctx.rng.choice(["int", "id", "eq", "nan"]), ctx.rng.random() < 0.3, \
+        yield n, edges, order, ctx.rng.choice(["int", "id", "eq", "nan", "odd"]), ctx.rng.random() < 0.3, \
             frozenset(range(n)) if ctx.rng.random() < 0.4 else frozenset()
 
 
